@@ -206,7 +206,15 @@ def _exc_class(e):
 
 
 # ----------------------------------------------------------------------------- correspondence
+# --- default values as regenerated obligations (Generated/Defaults.lean <- harness/translate_defaults.py; stream defaults[...])
+import defaults_stream  # noqa: E402
+from common import all_pre_build as pre_build  # noqa: E402,F401,F811  (runs EVERY translate_*.py)
+LEAN_MODULES += ["PyomaVerif.Props.WiringDefaultsC07"]
+THEOREMS += ["PV.WiringDefaults.C06_defaults"]
+
+
 def correspondence(ctx):
+    defaults_stream.correspondence(ctx, props=('C06',))
     fdd = _fdd()
     rng = ctx.rng
     # (1) FDD_mpe, valid stream
